@@ -163,10 +163,17 @@ func (c *Ctx) RuleMapOrder() *Result {
 			key := fmt.Sprintf("%s:range %s", load.FnName(fn), describeMapOperand(l.rng.X))
 			pos := c.P.InstrPos(l.rng)
 			if st, ok := defOK[fn]; ok {
-				if st == "" {
-					res.ok(key, pos, "inside the order-independent substitution fragment checked by DEF-FRAGMENT")
+				if st == "" || strings.HasPrefix(st, "VIOLATION: ") {
+					res.ok(key, pos, "inside the order-independent substitution fragment checked by DEF-FRAGMENT (the fragment's own verdict is reported there)")
+					continue
+				}
+				// outside the fragment the special argument does not apply: judge the loop like any other
+				if v, d := c.classifyMapLoop(l); v == Violated {
+					res.bad(key, pos, d+" (the definition-expansion fragment of DEF-FRAGMENT does not apply: "+st+")")
+				} else if v == Discharged {
+					res.ok(key, pos, d)
 				} else {
-					res.undecided(key, pos, "map iteration in a definition-expansion function that is outside the fragment DEF-FRAGMENT can justify: "+st)
+					res.undecided(key, pos, d)
 				}
 				continue
 			}
@@ -689,6 +696,9 @@ func (c *Ctx) checkDefFragment(fn *ssa.Function, loops []*mapLoop) string {
 	if updates != 1 {
 		return fmt.Sprintf("%d updates in the inner loop instead of one", updates)
 	}
+	if len(inner.region) != 1 || len(last.region) != 1 {
+		return "a loop body of the fragment contains control flow (the argument covers unconditional substitution only)"
+	}
 	// last loop: src' = ReplaceAll(src, "{{"+key+"}}", val) carried through the header phi
 	found := 0
 	for _, b := range fn.Blocks {
@@ -730,7 +740,7 @@ func (c *Ctx) checkDefFragment(fn *ssa.Function, loops []*mapLoop) string {
 	// call sites: not inside a loop
 	for _, e := range c.Graph().In[fn] {
 		if inCycle(e.Site.Block()) {
-			return "called from inside a loop in " + load.FnName(e.Caller) + " (definitions must be applied once, after the whole file was read)"
+			return "VIOLATION: called from inside a loop in " + load.FnName(e.Caller) + ": definitions are applied before the whole file was read, so a definition that comes later in the file is not substituted into text that was already expanded (the result depends on the order of the definition lines)"
 		}
 	}
 	return ""
@@ -763,6 +773,8 @@ func (c *Ctx) RuleDefFragment() *Result {
 		key := load.FnName(fn) + ":definition expansion"
 		if why == "" {
 			res.ok(key, c.P.FnPos(fn), "nested definition loop + substitution loop are inside the fragment whose order-independence is argued in DESIGN.md (C07); applied once after the file is read")
+		} else if strings.HasPrefix(why, "VIOLATION: ") {
+			res.bad(key, c.P.FnPos(fn), strings.TrimPrefix(why, "VIOLATION: "))
 		} else {
 			res.undecided(key, c.P.FnPos(fn), "definition expansion is outside the fragment the order-independence argument covers: "+why)
 		}
